@@ -6,6 +6,8 @@ import (
 	"context"
 	"strings"
 
+	"github.com/go-logr/logr"
+
 	"k8s.io/apimachinery/pkg/api/meta"
 	metav1 "k8s.io/apimachinery/pkg/apis/meta/v1"
 	"k8s.io/apimachinery/pkg/apis/meta/v1/unstructured"
@@ -342,3 +344,5 @@ func VerifC04TeardownOrder() {
 		verifrt.Reach("teardown-pending")
 	}
 }
+
+func vNoLog() logr.Logger { return logr.Discard() }
